@@ -61,6 +61,14 @@ Theorem C19_same_table_same_answers : forall a b, same_table a b ->
   (forall ino size off, ps_readdir a ino size off = ps_readdir b ino size off) /\
   (forall ino, ps_parent a ino = ps_parent b ino).
 Proof. exact ps_answers_same. Qed.
+(* the same with remove_pseudo_root set, for histories in which an evicted mount point has no pseudo children (no mount
+   path runs through another mount point; nested mounts are unsupported by the Vfs) *)
+Theorem C19_pseudo_roundtrip_rm : forall s o rm, lreach s ->
+  exists t', vfs_restore (vfs_new o rm) (vfs_save s) = (t', Ok tt) /\
+             same_table (v_ps t') (v_ps s) /\ ps_next (v_ps t') = ps_next (v_ps s) /\ v_next t' = v_next s.
+Proof. exact vfs_pseudo_roundtrip_rm. Qed.
+Theorem C19_tree_invariant_rm : forall s, lreach s -> tree_ok (v_ps s) /\ ps_ok (v_ps s).
+Proof. exact lreach_tree. Qed.
 (* the tree invariant behind it (children lists = the inodes with that parent in increasing inode order, every parent
    present, no duplicate keys) holds along all those histories, and any pseudo fs satisfying it round-trips *)
 Theorem C19_tree_invariant : forall s, kreach s -> tree_ok (v_ps s) /\ keys_lt (v_ps s) /\ v_rm s = false.
@@ -91,6 +99,8 @@ Theorem C19_global_mapping_partial : forall o rm s t', vfs_restore (vfs_new o rm
 Proof. exact global_mapping_partial. Qed.
 
 (* non-vacuity: a reachable state with two mounts restores, and the restored Vfs allocates what the original would *)
+Example C19_nonvacuous_lreach : lreach ex_rm /\ aget 2 (ps_inodes (v_ps ex_rm)) = None /\ aget 4 (ps_inodes (v_ps ex_rm)) <> None.
+Proof. exact ex_lreach. Qed.
 Example C19_nonvacuous_kreach : exists s, kreach s /\ aget 4 (ps_inodes (v_ps s)) <> None.
 Proof. exact ex_kreach. Qed.
 Example C19_nonvacuous : exists s t', reachable s /\ vfs_restore (vfs_new default_opts false) (vfs_save s) = (t', Ok tt) /\
@@ -107,6 +117,8 @@ Print Assumptions C19_pseudo_roundtrip.
 Print Assumptions C19_same_table_same_answers.
 Print Assumptions C19_tree_invariant.
 Print Assumptions C19_tree_roundtrip.
+Print Assumptions C19_pseudo_roundtrip_rm.
+Print Assumptions C19_tree_invariant_rm.
 Print Assumptions C19_initialized_refuted.
 Print Assumptions C19_initialized_partial.
 Print Assumptions C19_global_mapping_refuted.
